@@ -100,6 +100,7 @@ pub fn subst_goal(g: &Goal, map: &[(VarId, Term)]) -> Goal {
         Goal::NonRel(NonRel::IsGroundInt(a)) => Goal::NonRel(NonRel::IsGroundInt(st(a))),
         Goal::NonRel(NonRel::IsGroundTerm(a)) => Goal::NonRel(NonRel::IsGroundTerm(st(a))),
         Goal::For(x, coll, body) => Goal::For(*x, coll.iter().map(st).collect(), sg(body)),
+        Goal::ForIn(x, coll, body) => Goal::ForIn(*x, st(coll), sg(body)),
         Goal::Match(k, t, arms) => Goal::Match(
             *k,
             st(t),
@@ -126,6 +127,7 @@ fn rename_binders(g: &Goal, map: &[(VarId, VarId)]) -> Goal {
         Goal::Fresh(v, gs) => Goal::Fresh(v.iter().map(rv).collect(), rg(gs)),
         Goal::Project(v, gs) => Goal::Project(v.iter().map(rv).collect(), rg(gs)),
         Goal::For(x, c, gs) => Goal::For(rv(x), c.clone(), rg(gs)),
+        Goal::ForIn(x, c, gs) => Goal::ForIn(rv(x), c.clone(), rg(gs)),
         Goal::Conj(gs) => Goal::Conj(rg(gs)),
         Goal::Conde(c) => Goal::Conde(c.iter().map(rg).collect()),
         Goal::Conda(c) => Goal::Conda(c.iter().map(rg).collect()),
@@ -339,6 +341,21 @@ impl Interp {
                 }
                 // each instantiation of the body must get its own fresh variables: wrap in
                 // Fresh-renaming by evaluating through conj (Fresh nodes rename on evaluation)
+                self.conj(&gs, st)
+            }
+            Goal::ForIn(x, coll, body) => {
+                // the collection as it is in this state; only proper lists are generated
+                let c = st.s.apply(coll);
+                let items: Vec<Term> = match c.as_proper_list() {
+                    Some(v) => v.into_iter().cloned().collect(),
+                    None => return Err(InterpErr::Unsupported("for over a term that is not a proper list")),
+                };
+                let mut gs = vec![];
+                for e in &items {
+                    for b in body {
+                        gs.push(subst_goal(b, &[(*x, e.clone())]));
+                    }
+                }
                 self.conj(&gs, st)
             }
             Goal::Match(kind, t, arms) => {
